@@ -122,13 +122,18 @@ func VerifAttribution() {
 		}
 		return m
 	}
+	maxEmpty := verifrt.Param("max_empty")
+	addEmpty := func() {
+		cmd := "ENV x" + string(rune('0'+len(chainIsEmpty)))
+		img.History = append(img.History, v1.History{CreatedBy: cmd, EmptyLayer: true})
+		chainIsEmpty = append(chainIsEmpty, true)
+		chainCommand = append(chainCommand, cmd)
+		chainV1 = append(chainV1, -1)
+		views = append(views, snapshot())
+	}
 	for l := 0; l < nLayers; l++ {
-		if verifrt.Choice("empty-layer-before", 2) == 1 {
-			img.History = append(img.History, v1.History{CreatedBy: "ENV x", EmptyLayer: true})
-			chainIsEmpty = append(chainIsEmpty, true)
-			chainCommand = append(chainCommand, "ENV x")
-			chainV1 = append(chainV1, -1)
-			views = append(views, snapshot())
+		for k := verifrt.Choice("empty-layers-before", 1+maxEmpty); k > 0; k-- {
+			addEmpty()
 		}
 		entries := []tarstub.Entry{{Name: "other-" + string(rune('0'+l)), Typeflag: tar.TypeReg, Mode: 0o644, Content: []byte("x")}}
 		for _, f := range files {
@@ -156,6 +161,11 @@ func VerifAttribution() {
 		chainCommand = append(chainCommand, cmd)
 		chainV1 = append(chainV1, l)
 		views = append(views, snapshot())
+	}
+	// history-only entries after the last layer (CMD, ENV, ...)
+	for k := verifrt.Choice("empty-layers-after", 1+verifrt.Param("trailing_empty")); k > 0; k-- {
+		addEmpty()
+		verifrt.Reach("trailing-history-only-entry")
 	}
 	out, err := image.FromV1Image(img, image.DefaultConfig())
 	verifrt.Assert(err == nil, "the image loads")
